@@ -819,7 +819,7 @@ func (g *gen) conds(sc scope, n int, inGroup bool) []Cond {
 // ---- chains -----------------------------------------------------------------------------------------
 
 func (g *gen) chain() *Chain {
-	switch g.weighted("kind", 46, 15, 8, 17, 7, 7) {
+	switch g.weighted("kind", 40, 15, 7, 18, 6, 6, 5, 3) {
 	case 0:
 		return g.query()
 	case 1:
@@ -830,8 +830,12 @@ func (g *gen) chain() *Chain {
 		return g.create()
 	case 4:
 		return g.raw()
-	default:
+	case 5:
 		return g.exec()
+	case 6:
+		return g.save()
+	default:
+		return g.firstOr()
 	}
 }
 
@@ -1054,13 +1058,18 @@ func (g *gen) setMap(sc scope, n int, allowSub bool) ([]string, []Arg) {
 func (g *gen) update() *Chain {
 	c := &Chain{Kind: "update"}
 	var sc scope
-	switch g.weighted("ubase", 70, 12, 18) {
+	switch g.weighted("ubase", 50, 20, 15, 15) {
 	case 0:
 		c.Base, sc = "item", scope{table: "items", model: true}
 	case 1:
 		c.Base, sc = "tag", scope{table: "tags", model: true}
+	case 2:
+		c.Base, sc = "owner", scope{table: "owners", model: true}
 	default:
 		c.Base, sc = "t:items", scope{table: "items"}
+	}
+	if g.pct("skiphooks", 15) {
+		c.SkipHooks = true
 	}
 	if sc.model && g.pct("modelid", 22) {
 		c.ModelID = 1 + int64(g.pick("mid", 3))
@@ -1136,7 +1145,7 @@ func (g *gen) delete() *Chain {
 func (g *gen) create() *Chain {
 	c := &Chain{Kind: "create"}
 	table := "items"
-	switch g.weighted("cbase", 60, 30, 10) {
+	switch g.weighted("cbase", 45, 35, 20) {
 	case 0:
 		c.Base = "item"
 	case 1:
@@ -1145,7 +1154,7 @@ func (g *gen) create() *Chain {
 		c.Base, table = "owner", "owners"
 	}
 	sc := scope{table: table, model: true}
-	c.CrKind = []string{"struct", "slice", "map", "maps"}[g.weighted("crkind", 35, 25, 20, 20)]
+	c.CrKind = []string{"struct", "slice", "map", "maps"}[g.weighted("crkind", 30, 34, 18, 18)]
 	conflictPct := 30
 	if c.CrKind == "map" || c.CrKind == "maps" {
 		conflictPct = 12
@@ -1185,11 +1194,15 @@ func (g *gen) create() *Chain {
 		r.ID = newID(0)
 		c.Rows = []Rec{r}
 	case "slice":
-		n := 1 + g.weighted("nrows", 25, 45, 30)
+		n := 1 + g.weighted("nrows", 20, 35, 25, 20)
 		for i := 0; i < n; i++ {
 			r := g.rec(table, 70, false)
 			r.ID = newID(i)
 			c.Rows = append(c.Rows, r)
+		}
+		if g.pct("batched", 55) {
+			c.Batch = g.oneOf("batchkind", "inbatches", "session", "config")
+			c.BatchSize = 1 + g.pick("batchsize", 3) // shorter, equal and longer slices all occur
 		}
 	case "map":
 		keys, vals := g.setMap(sc, 1+g.weighted("nkeys", 25, 40, 35), false)
@@ -1207,6 +1220,48 @@ func (g *gen) create() *Chain {
 			c.MapRows = append(c.MapRows, MapRow{Keys: keys, Vals: vals})
 		}
 	}
+	return c
+}
+
+// save: Save(&struct) (insert without key, update of every column with one) and Save(&slice) (upsert).
+func (g *gen) save() *Chain {
+	table := g.oneOf("savetable", "items", "tags", "owners")
+	c := &Chain{Kind: "save", Base: map[string]string{"items": "item", "tags": "tag", "owners": "owner"}[table]}
+	id := func(i int) int64 {
+		switch g.weighted("saveid", 40, 35, 25) {
+		case 0:
+			return 0
+		case 1:
+			return int64(1 + i%3)
+		}
+		return g.num()
+	}
+	if g.pct("saveslice", 40) {
+		c.CrKind = "slice"
+		for i, n := 0, 1+g.pick("nrows", 3); i < n; i++ {
+			r := g.rec(table, 70, false)
+			r.ID = id(i)
+			c.Rows = append(c.Rows, r)
+		}
+		return c
+	}
+	c.CrKind = "struct"
+	r := g.rec(table, 70, false)
+	r.ID = id(0)
+	c.Rows = []Rec{r}
+	return c
+}
+
+// firstOr: FirstOrInit / FirstOrCreate with a struct condition that matches no seeded row.
+func (g *gen) firstOr() *Chain {
+	table := g.oneOf("fotable", "items", "tags", "owners")
+	c := &Chain{Kind: "firstor", Base: map[string]string{"items": "item", "tags": "tag", "owners": "owner"}[table],
+		Fin: g.oneOf("fofin", "firstorinit", "firstorcreate"), InlineCond: g.pct("foinline", 40)}
+	r := g.rec(table, 45, true)
+	if r.F[0] == nil {
+		r.F[0] = g.fieldVal(columnsOf(table)[0].kind) // a sentinel string: the condition matches no seeded row
+	}
+	c.Rows = []Rec{r}
 	return c
 }
 
